@@ -826,7 +826,7 @@ def run(ctx):
     if ctx.shard == 0:
         check_send_refusal(ctx)
     samples = 0
-    for i in ctx.cases(5000, 400000):
+    for i in ctx.cases(5000, 300000):
         kind = KINDS[i % len(KINDS)]
         rng = ctx.case_rng("stream", i)
         cfg, stream = gen_case(rng, kind)
